@@ -209,8 +209,10 @@ class PrintingStringIO(StringIO):
         return super().flush()
 
     def writelines(self, lines):
-        self._original_stdout.writelines(lines)
-        return super().writelines(lines)
+        # `lines` may be a generator (only one pass), and StringIO.writelines
+        # goes through write() anyway, which already echoes
+        for line in lines:
+            self.write(line)
 
 
 def make_fake_output(also_print=False) -> StringIO:
